@@ -22,13 +22,14 @@ RULE = (
     "asynchronous or synchronous) first emits or completes, unless superseded; sample(period 1..4) and sample(sampler "
     "observable): at each tick the latest not-yet-sampled element, completion at the first tick after the source completed, "
     "source error immediately. A timer/tick and a source notification at exactly the same instant may be ordered either way "
-    "(one order per timer and instant). Non-trivial: >=1 element suppressed and >=1 emitted. In 1 case of 3 (not for sample with a sampler observable) the same built observable is subscribed a second time at a generated tick s1 in s0+{0,1,2,3,7} and the same per-subscription oracle is applied to that probe. Distinct = distinct case JSON."
+    "(one order per timer and instant; for sample one order for ALL ticks of a subscription: an element arriving exactly on a "
+    "tick is either always sampled by that tick or always by the next one). Non-trivial: >=1 element suppressed and >=1 emitted. In 1 case of 3 (not for sample with a sampler observable) the same built observable is subscribed a second time at a generated tick s1 in s0+{0,1,2,3,7} and the same per-subscription oracle is applied to that probe. Distinct = distinct case JSON."
 )
 ASSUMPTIONS = [
     "throttle_first windows and sample periods are > 0 (documented precondition); debounce due time >= 0",
     "sample(sampler observable): behaviour from the sampler's own termination onwards is not judged (run is cut one tick before it)",
     "throttle observables do not error (the property is silent about it)",
-    "at an exact tie between a timer/tick and a source notification either order is accepted",
+    "at an exact tie between a timer/tick and a source notification either order is accepted; sample must use the same order at every tick of one subscription",
 ]
 
 FORMS = ["num", "float", "td"]
@@ -181,15 +182,15 @@ def _judge_twm(case, lab, p, s0, ths):
 def _exp_sample(eff, ticks, ch):
     out, pend, at_end = [], None, False
     ti = mi = 0
-    dec = {}
+    dec = []  # ONE tie order for the whole run: every tick is either before or after the source notifications of its instant
     while ti < len(ticks) or mi < len(eff):
         nt = ticks[ti] if ti < len(ticks) else None
         nm = eff[mi][0] if mi < len(eff) else None
         tick_first = nm is None or (nt is not None and nt < nm)
         if not tick_first and nt is not None and nt == nm:
-            if ti not in dec:
-                dec[ti] = ch()
-            tick_first = dec[ti]
+            if not dec:
+                dec.append(ch())
+            tick_first = dec[0]
         if tick_first:
             if pend is not None:
                 out.append([nt, "N", pend])
